@@ -68,3 +68,15 @@ CONFIG["coq_targets"] = CONFIG["coq_targets"] + ['theories/Nfs41/Properties2C20.
 CONFIG["properties_files"] = CONFIG["properties_files"] + ['theories/Nfs41/Properties2C20.v']
 CONFIG["required_theorems"] = CONFIG.get("required_theorems", []) + ['one_owner_one_object', 'lock_owner_object_stable', 'nfs_lock_tables_exclusive', 'lockcount_exact', 'lockcount_never_panics', 'no_panic', 'close_releases_exactly', 'remove_releases_exactly', 'expiry_releases_exactly', 'free_stateid_releases_nothing', 'locku_releases_exactly', 'locku_other_tables', 'shared_lock_owner_refutes']
 CONFIG["assumptions"] = CONFIG.get("assumptions", []) + ['the NFSv4.1 lockCount and no-panic theorems assume uint64 (offset, length) other than (2^64-1, 2^64-1) and no lock-owner holding lock state on one file through two open-owners (known finding C20:shared-lock-owner)']
+
+# ---- appended by the Locks area (C14): generated atomicity obligation repo_atomic_sections
+# (translator/summaries.json atomic/sections: OpenedFile.Lock tests and sets the byte-range lock table
+# under one exclusive hold of of.locksLock, ...; coq/theories/Locks/Checker.v atomic_section_sound).
+# C20's exclusion rests on it; the sequential harnesses cannot see a broken section.
+import importlib.util as _ilu14, os as _os14
+_spec14 = _ilu14.spec_from_file_location("check_C14_for_C20", _os14.path.join(_os14.path.dirname(_os14.path.abspath(__file__)), "C14.py"))
+_c14 = _ilu14.module_from_spec(_spec14)
+_spec14.loader.exec_module(_c14)
+CONFIG["static_obligations"] = CONFIG.get("static_obligations", []) + [_c14.static_atomic]
+CONFIG["coq_targets"] = CONFIG["coq_targets"] + [t for t in ["theories/Locks/Checker.vo", "theories/Locks/Order.vo"] if t not in CONFIG["coq_targets"]]
+CONFIG["trusted_base"] = CONFIG.get("trusted_base", []) + ["repo_atomic_sections: translator /verif/translator (call events and lock operations of the functions listed in translator/summaries.json atomic/sections; every other call site of ByteRangeLockSet.Set/Test stops it) and the path semantics Locks/Checker.exec (see checks/C14.py)"]
